@@ -240,6 +240,35 @@ def r4(ctx: Ctx) -> None:
                        f"a {name} module is written with flags {sorted(flags)} and read back as {back}", lineno=fw.node.lineno)
 
 
+def yaml_emitter_keeps_order(ctx: Ctx) -> None:
+    """the one YAML sink (utils.write_yaml) emits mappings in insertion order: the emitter object is ruamel's default
+    (round-trip) flavour; the 'safe' / 'unsafe' / 'base' flavours sort the keys of every mapping, which reorders the
+    modules (and the keys of per-region area maps) of every document written"""
+    f = ctx.func(UTILS, "write_yaml")
+    ctors = [n for n in walk_own(f.node) if isinstance(n, ast.Call) and call_name(n) == "YAML"]
+    if not ctors:
+        raise AnalysisError("write_yaml: construction of the YAML emitter not found")
+    for n in ctors:
+        typ = n.args[0] if n.args else next((k.value for k in n.keywords if k.arg == "typ"), None)
+        ok = typ is None or (isinstance(typ, ast.Constant) and typ.value in (None, "rt"))
+        ctx.site(f.where, "YAML emitter keeps mapping insertion order (round-trip flavour)", constructor=ast.unparse(n), keeps_order=ok)
+        if not ok:
+            ctx.report(f.where, f"yaml-emitter-sorts {ast.unparse(n)}", "write_yaml builds a key-sorting YAML emitter: the modules of a written netlist come back in "
+                       "alphabetical order instead of the order of the design", lineno=n.lineno)
+    sorters = [n for n in walk_own(f.node) if isinstance(n, ast.Call) and call_name(n) in ("sorted", "sort")]
+    sorters += [n for n in walk_own(f.node) if isinstance(n, ast.Assign) and any(isinstance(t, ast.Attribute) and "sort" in t.attr for t in n.targets)
+                and not (isinstance(n.value, ast.Constant) and n.value.value is False)]
+    for n in sorters:
+        ctx.report(f.where, f"yaml-emitter-sorts {ast.unparse(n)[:60]}", "write_yaml sorts what it writes", lineno=n.lineno)
+    dumps = [n for n in walk_own(f.node) if isinstance(n, ast.Call) and call_name(n) == "dump"]
+    ctx.site(f.where, "the data handed in is what is dumped", dumps=len(dumps))
+    for n in dumps:
+        if not (n.args and isinstance(n.args[0], ast.Name) and n.args[0].id == f.params()[0]):
+            ctx.report(f.where, f"yaml-dump-arg {ast.unparse(n)[:60]}", "write_yaml does not dump the data it was given", lineno=n.lineno)
+    if not dumps:
+        raise AnalysisError("write_yaml: dump call not found")
+
+
 @rule("C04", "R5.order", "ORDER",
       "modules and nets are written by iterating the lists in order and read by iterating the document in order: no "
       "sorting and no set on either side", floor=4)
@@ -252,6 +281,7 @@ def r5(ctx: Ctx) -> None:
         ctx.site(f.where, "order-preserving iteration", reordering_constructs=len(bad))
         for n in bad:
             ctx.report(f.where, f"reorders {ast.unparse(n)[:60]}", f"{q} reorders or de-duplicates the items it transfers", lineno=n.lineno)
+    yaml_emitter_keeps_order(ctx)
     f = ctx.func(YWRITE, "dump_yaml_modules")
     c = canon_function(f, ctx.model)
     b = ("b", 1, 0)
@@ -447,3 +477,43 @@ def r8(ctx: Ctx) -> None:
             (k_str(kw_value(ctx, "KW_NETS")), ("c", ("g", "dump_yaml_edges"), (("a", s_, "edges"),), ()))}
     if not any(set(d[1]) == want for d in docs):
         ctx.report(fnw.where, "sections-encode", "Netlist.write_yaml does not write the modules and the nets of this netlist under 'Modules' and 'Nets'", lineno=fnw.node.lineno)
+
+
+
+@rule("C04", "R9.read-normalisation-stable", "GUARD",
+      "reading re-runs the trunk recognition, which may move a rectangle to the front of a module's list: it must leave a "
+      "list it has already normalised unchanged, so a later candidate replaces the current trunk only when strictly "
+      "larger (ties keep the earlier one) -- otherwise every write/read cycle swaps two equal rectangles and the "
+      "document alternates", floor=1)
+def r9(ctx: Ctx) -> None:
+    fi = ctx.func(GEOM, "create_stog")
+    g = ctx.cfg(fi)
+    cn = g.canon()
+    # the assignment that records a candidate as the trunk (under the all(...) test), and the loop it is in
+    from .common import resolve_local
+    recs = []
+    for n in walk_own(fi.node):
+        if isinstance(n, ast.If) and any(isinstance(c_, ast.Call) and call_name(c_) == "all" for c_ in ast.walk(resolve_local(fi.node, n.test))):
+            for st in n.body:
+                if isinstance(st, ast.Assign) and isinstance(st.targets[0], ast.Name):
+                    recs.append(st)
+    if len(recs) != 1:
+        raise AnalysisError("create_stog: the statement recording the accepted trunk was not found")
+    rec = recs[0]
+    best = cn.expr(ast.Name(id=rec.targets[0].id, ctx=ast.Load()))
+    loops = [lp for lp in walk_own(fi.node) if isinstance(lp, ast.For) and any(x is rec for x in ast.walk(lp))]
+    if not loops or not (isinstance(loops[-1].target, ast.Tuple) and len(loops[-1].target.elts) == 2):
+        raise AnalysisError("create_stog: candidate loop (for i, trunk in enumerate(...)) not found")
+    cand = cn.expr_store(loops[-1].target.elts[1])
+    coll = ("p", 0)
+    facts = g.facts_at(g.node_for(rec))
+    area_b = ("a", ("s", coll, best), "area")
+    area_c = ("a", cand, "area")
+    strictly_larger = mk_lt(area_b, area_c)
+    none_yet = mk_lt(best, k_num(0))
+    ok = strictly_larger in facts or none_yet in facts or mk_or([none_yet, strictly_larger]) in facts
+    ctx.site(fi.where, "a candidate replaces the recorded trunk only if no trunk was recorded or it is strictly larger", facts=len(facts), ok=ok)
+    if not ok:
+        ctx.report(fi.where, "trunk-tie-replaced", "a later rectangle of equal area can replace the recorded trunk: after the swap to the front the same list gives the "
+                   "other order on the next read, so writing a reloaded netlist does not reproduce the document", lineno=rec.lineno,
+                   facts=sorted(show(x) for x in facts)[:12])
